@@ -398,6 +398,23 @@ func newSourceRaw(kind string, r image.Rectangle, subMode int, rng *core.RNG) im
 			return opaqueSrc{m.SubImage(r)}
 		}
 		return opaqueSrc{m}
+	case "override", "override64":
+		// a caller's type that embeds a standard image (so that its methods other than At are the
+		// standard image's own) and overrides At: what the image shows is what At returns
+		if kind == "override" {
+			m := image.NewNRGBA(pr)
+			fillBytes(rng, m.Pix)
+			if sub {
+				return mirroredNRGBA{m.SubImage(r).(*image.NRGBA)}
+			}
+			return mirroredNRGBA{m}
+		}
+		m := image.NewRGBA64(pr)
+		fillBytes(rng, m.Pix)
+		if sub {
+			return mirroredRGBA64{m.SubImage(r).(*image.RGBA64)}
+		}
+		return mirroredRGBA64{m}
 	case "Uniform":
 		v := rng.U64()
 		u := image.NewUniform(color.NRGBA64{R: uint16(v), G: uint16(v >> 16), B: uint16(v >> 32), A: uint16(v >> 48)})
@@ -417,6 +434,19 @@ func newSourceRaw(kind string, r image.Rectangle, subMode int, rng *core.RNG) im
 		return img.(subImager).SubImage(r)
 	}
 	return img
+}
+
+// mirroredNRGBA / mirroredRGBA64 show their embedded image mirrored left to right.
+type mirroredNRGBA struct{ *image.NRGBA }
+
+func (m mirroredNRGBA) At(x, y int) color.Color {
+	return m.NRGBA.NRGBAAt(m.Rect.Min.X+m.Rect.Max.X-1-x, y)
+}
+
+type mirroredRGBA64 struct{ *image.RGBA64 }
+
+func (m mirroredRGBA64) At(x, y int) color.Color {
+	return m.RGBA64.RGBA64At(m.Rect.Min.X+m.Rect.Max.X-1-x, y)
 }
 
 // uniformIn is an image backed by a Uniform but with finite bounds.
